@@ -143,13 +143,7 @@ func TestC20FailedUpgradeIsLogged(t *testing.T) {
 		var ln net.Listener
 		switch kind {
 		case "refused":
-			l0, err := hx.Listen("tcp", "127.0.0.1:0")
-			if err != nil {
-				t.Fatalf("VERIF-INCONCLUSIVE %v", err)
-			}
-			addr := l0.Addr().String()
-			l0.Close()
-			target.set(&url.URL{Scheme: "http", Host: addr})
+			target.set(&url.URL{Scheme: "http", Host: hx.FreeAddr()}) // nothing listens there
 		default:
 			l0, err := hx.Listen("tcp", "127.0.0.1:0")
 			if err != nil {
